@@ -18,6 +18,16 @@ NOTES = {
  "C13-r2/": "C13 makes two sweeps on the same ParallelGradient object",
  "C16-r2/": "C16 builds two DensityFinder objects on the same spline",
  "C05-r2/": "C05 runs the quasi-neutrality pipeline with a non-zero flux-surface average across process grids",
+ "C01-r3/": "first missed (process grids had at most two axes); C01 now lets TLC sample process grids of every length (MaxNpLenFull) and over-decomposed grids, and replays them",
+ "C04-r3/": "first missed (no grid with more processes than points along a direction); C04 now has over-decomposed configurations, with and without idle data ranks",
+ "C05-r3/": "first missed (default constants make kTe = kTi); C05 now sets up the three starting layouts and one driver run with constants in general position",
+ "C06-r3/": "first missed (no rank with an empty block in some layouts only); C06 now records over-decomposed handler / swapper scenarios",
+ "C08-r3/": "first missed (interpolator and spline always had the same dtype); C08 now pairs every interpolator dtype with every spline dtype on real data",
+ "C10-r3/": "first missed (rotational transform was never negative); C10 now runs iota = -1 and an r-dependent profile that changes sign",
+ "C12-r3/": "missed by C12 (a grid-level index mismatch between gridStep and gridStep_SplinesUnchanged, visible only with z distributed); detected by C05, which now drives every public grid-level operator entry point on every process grid against the serial run",
+ "C16-r3/": "first missed (the oracle's equilibrium table was built with the code's own feq_vector, the function the change broke, and CTi was 1); C16/C11/C12 now use an independent transcription of the equilibrium (harness/physics.py) and constants in general position",
+ "C18-r3/": "first run did not finish (the cached constants described the default 256x512x32x128 grid and the set-up comparison tried to build it); the comparison now sizes the grid by what the parser returns and reports the difference",
+ "C19-r3/": "first missed (2-D kernels were only called with equal degrees and three of the four derivative combinations); C19 now calls them with mixed degrees and all four combinations - which also exposed the pythran defect fixed in 2b90041",
 }
 rows = []
 for d in sorted(glob.glob("/verif/seeded/*/meta.json")):
